@@ -157,11 +157,26 @@ package aggregate
 //@   requires p != nil && p.scale >= -10 && p.scale <= 20
 //@   ensures p.scale <= 0 && p.scale >= -10 && v > 0 && !isInf(v) && !isNaN(v) ==> (int64(r) << int64(-p.scale)) <= int64(ite(fst(math.Frexp(v)) == 0.5, snd(math.Frexp(v)) - 2, snd(math.Frexp(v)) - 1)) && int64(ite(fst(math.Frexp(v)) == 0.5, snd(math.Frexp(v)) - 2, snd(math.Frexp(v)) - 1)) + 1 <= ((int64(r) + 1) << int64(-p.scale))
 
+// expoBuckets.record: the window [startBin, startBin+len) grows just enough to contain bin; the new bin's count grows by
+// one (starts at one), every old bin keeps its count at its (possibly shifted) position, every newly exposed slot is zero
 //@ func (b *expoBuckets) record(bin int32)
-//@   prop -
-//@   trusted "window arithmetic of the bucket slice: not yet under contract (listed as not decided)"
+//@   prop C07
+//@   overflow assumed
 //@   requires b != nil
-//@   modifies b, elemscap(b.counts)
+//@   modifies b.startBin, b.counts, elemscap(b.counts)
+//@   ensures old(len(b.counts)) == 0 ==> len(b.counts) == 1 && b.counts[0] == 1 && b.startBin == bin
+//@   ensures old(len(b.counts)) > 0 && old(b.startBin) <= bin && bin <= old(b.startBin) + old(len(b.counts)) - 1 ==> b.startBin == old(b.startBin) && len(b.counts) == old(len(b.counts)) && b.counts[bin - old(b.startBin)] == old(b.counts[bin - b.startBin]) + 1 && (forall j in 0 .. len(b.counts) : j != bin - old(b.startBin) ==> b.counts[j] == old(b.counts[j]))
+//@   ensures old(len(b.counts)) > 0 && bin < old(b.startBin) ==> b.startBin == bin && len(b.counts) == old(b.startBin) + old(len(b.counts)) - bin && b.counts[0] == 1 && (forall j in 1 .. old(b.startBin) - bin : b.counts[j] == 0) && (forall j in 0 .. old(len(b.counts)) : b.counts[old(b.startBin) - bin + j] == old(b.counts[j]))
+//@   ensures old(len(b.counts)) > 0 && bin > old(b.startBin) + old(len(b.counts)) - 1 ==> b.startBin == old(b.startBin) && len(b.counts) == bin - old(b.startBin) + 1 && b.counts[bin - old(b.startBin)] == 1 && (forall j in 0 .. old(len(b.counts)) : b.counts[j] == old(b.counts[j])) && (forall j in old(len(b.counts)) .. bin - old(b.startBin) : b.counts[j] == 0)
+//@   loop#1 invariant 1 <= i && (i <= shift || i == 1) && len(b.counts) == newLength && b.startBin == old(b.startBin)
+//@   loop#1 invariant forall j in 1 .. i : b.counts[j] == 0
+//@   loop#1 invariant forall j in 0 .. origLen : b.counts[shift + j] == old(b.counts[j])
+//@   loop#1 invariant fresh(b.counts) || (samearray(b.counts, old(b.counts)) && cap(b.counts) == old(cap(b.counts)))
+//@   loop#1 invariant framed()
+//@   loop#2 invariant old(len(b.counts)) <= i && i <= len(b.counts) && len(b.counts) == bin - old(b.startBin) + 1 && b.startBin == old(b.startBin) && samearray(b.counts, old(b.counts))
+//@   loop#2 invariant forall j in old(len(b.counts)) .. i : b.counts[j] == 0
+//@   loop#2 invariant forall j in 0 .. old(len(b.counts)) : b.counts[j] == old(b.counts[j])
+//@   loop#2 invariant framed()
 //@ func (b *expoBuckets) downscale(delta int32)
 //@   prop -
 //@   trusted "in-place merge of bucket counts: not yet under contract (listed as not decided)"
